@@ -156,7 +156,10 @@ struct CSide {
       CAP.begin(); masa_set_vec<double>(n, v); CAP.end();
       in.vec[n] = v; in.version = next_version(); m.recent[m.sel].clear();
       double* dst = (double*)malloc(sizeof(double) * (size_t)std::max(len, 1));
-      int nn = -1;
+      // *n is an output: whatever it holds on entry (a stale length from an earlier query, 0, a negative number) must not matter
+      static const int ENTRY[] = {-1, 0, 1, 2, 7, 25, 1000};
+      int nn = R->coin() ? ENTRY[R->below(7)] : (len > 1 ? 1 + R->below(len - 1) : len + 3);
+      memset(dst, 0x5a, sizeof(double) * (size_t)std::max(len, 1));
       CAP.begin(); int rc = ::masa_get_array(n.c_str(), &nn, dst); CAP.end();
       bool same = nn == len; if (same) for (int i = 0; i < len; i++) if (!biteq(dst[i], v[(size_t)i])) same = false;
       if (!same || rc != 0) hviol(PROP, "c-get_array-differs", "C masa_get_array returned status " + std::to_string(rc) + " length " + std::to_string(nn) + " for a vector of length " + std::to_string(len));
